@@ -446,12 +446,12 @@ impl MqttState {
         }
         self.incoming_pub.set(pubrel.pkid as usize, false);
 
+        // a release of a known id is answered with PUBCOMP whatever its reason code says
         if pubrel.reason != PubRelReason::Success {
             warn!(
                 "PubRel Pkid = {:?}, reason: {:?}",
                 pubrel.pkid, pubrel.reason
             );
-            return Ok(None);
         }
 
         let event = Event::Outgoing(Outgoing::PubComp(pubrel.pkid));
